@@ -19,7 +19,8 @@ TInit == VInit /\ l = 1 /\ prev = NoPrev
 TReset == Step("reset") /\ rows' = <<>> /\ dead' = {} /\ trained' = ~NeedsTraining /\ hw' = 0 /\ prev' = NoPrev
 
 \* training may refuse a set it considers too small (no effect); it never panics
-TTrain == /\ Step("train") /\ ~Ev.panic /\ prev' = NoPrev
+\* training leaves the caller's vectors alone (the tables of this module describe the vectors as the caller holds them)
+TTrain == /\ Step("train") /\ ~Ev.panic /\ Ev.inputSame /\ prev' = NoPrev
           /\ IF Ev.ok THEN Train ELSE UNCHANGED vvars
 
 \* the constructor refused the parameters of this configuration: nothing to check
@@ -61,9 +62,13 @@ TSearch ==
         ELSE /\ Ev.ok
              /\ LET qs == Ev.qs \o [i \in DOMAIN nodes |-> NodeRow(nodes[i])]
                     filt == AsSet(Ev.filt)
-                    key == <<qs, Ev.k, Ev.thr, filt, Ev.p, Ev.agg>>
+                    key == <<qs, Ev.k, Ev.thr, filt, Ev.p, Ev.agg, Ev.thrid>>   \* (two thresholds with the same fixed-point rendering need not be the same float)
                 IN /\ Holds(IF Len(qs) = 1 THEN SearchOK(Ev.res, qs[1], Ev.k, Ev.thr, filt, Ev.p)
                                            ELSE MultiOK(Ev.res, qs, Ev.k, Ev.thr, filt, Ev.agg))
+                   \* a threshold taken from a score the index itself reported for document thrid admits that document: the same
+                   \* computation gives the same float (no tie band here; exhaustive kinds, every cluster probed, no truncation)
+                   /\ (Ev.thrid # 0 /\ Kind # "hnsw" /\ Ev.k <= 0 /\ (~Clustered \/ Probes(Ev.p) = NList) /\ (filt = {} \/ Ev.thrid \in filt))
+                         => Ev.thrid \in IdsOf(Ev.res)
                    \* flushing (or serialising) soft-deleted vectors never changes an answer (flat, pq, ivf / ivfpq at full probe; not claimed for HNSW)
                    /\ (prev.key = key /\ Kind # "hnsw" /\ (~Clustered \/ Probes(Ev.p) = NList)) => SameUpToTies(Ev.res, prev.res)
                    /\ prev' = [key |-> key, res |-> Ev.res]
